@@ -524,8 +524,23 @@ impl<'a> LoweringManager<'a> {
           } else {
             false
           };
+          // A type-erased parameter (the `_this` of a method) stored in a field of its concrete
+          // struct type, e.g. as the context of a lambda that captures `this`, needs the downcast.
+          let erased_variable_for_typed_field = match (e, field_types.and_then(|fields| fields.get(i))) {
+            (lir::Expression::Variable(n, _), Some(wasm::Type::Reference(field_ref)))
+              if matches!(self.local_variables.get(n), Some(wasm::Type::Eq)) =>
+            {
+              Some(*field_ref)
+            }
+            _ => None,
+          };
           if needs_i31 {
             wasm_expression_list.push(wasm::InlineInstruction::I31New(Box::new(lowered)));
+          } else if let Some(field_ref) = erased_variable_for_typed_field {
+            wasm_expression_list.push(wasm::InlineInstruction::Cast {
+              pointer_type: lir::Type::Id(field_ref),
+              value: Box::new(lowered),
+            });
           } else {
             wasm_expression_list.push(lowered);
           }
